@@ -94,6 +94,7 @@ class History(object):
         self.shx, self.rng = shx, rng
         self.ents = initial_entries(shx)
         self.log = []
+        self.mops = []          # the same history as operations of coq/Model/Edit.v: ('ins', k, parts, raw) / ('del', k) / ('upd', k, parts)
         self.acta_store = None
         self.refine = None
 
@@ -108,6 +109,7 @@ class History(object):
         obj = self.ents[i].obj
         idx = shx.index_of(obj) if not isinstance(obj, str) else i
         shx.add_line(idx, line)
+        self.mops.append(('ins', idx + 1, [line], True))
         self.ents.insert(i + 1, Entry(line, [line.split()], False, 'inserted', False))
         self.log.append(('add_line', idx, line))
         return True
@@ -119,8 +121,10 @@ class History(object):
             return False
         names = [a.name for a in shx.atoms.all_atoms if not a.qpeak][:2]
         arg = self.rng.choice(['', ' '.join(names)])
+        upos = shx.unit.index
         shx.insert_anis(arg) if arg else shx.insert_anis()
         toks = ['ANIS'] + arg.split()
+        self.mops.append(('ins', upos + 1, [shx._reslist[upos + 1]], True))
         self.ents.insert(i + 1, Entry(' '.join(toks), [toks], False, 'inserted', False))
         self.log.append(('insert_anis', arg))
         return True
@@ -135,6 +139,7 @@ class History(object):
             return False
         i = find_entry(self.ents, a)
         self.log.append(('delete', a.name, a.resinum))
+        self.mops.append(('del', a.index))
         if self.rng.random() < 0.5:
             a.delete()
         else:
@@ -149,6 +154,7 @@ class History(object):
         i = find_entry(self.ents, a)
         new = 'X%d' % self.rng.randint(1, 99)
         a.name = new
+        self.mops.append(('upd', a.index, str(a).split('\n')))
         for l in self.ents[i].lines[:1]:
             l[0] = new
         self.log.append(('rename', new))
@@ -163,6 +169,10 @@ class History(object):
         el = self.rng.choice([e.capitalize() for e in shx.sfac_table.elements_list] + ['Br', 'Si'])
         known = [e.upper() for e in shx.sfac_table.elements_list]
         a.element = el
+        self.mops.append(('upd', a.index, str(a).split('\n')))
+        if el.upper() not in known:
+            self.mops.append(('upd', shx.index_of(shx.sfac_table), str(shx.sfac_table).split('\n')))
+            self.mops.append(('upd', shx.unit.index, str(shx.unit).split('\n')))
         if el.upper() in known:
             num = known.index(el.upper()) + 1
         else:
@@ -186,6 +196,7 @@ class History(object):
             return False
         i = find_entry(self.ents, a)
         a.to_isotropic()
+        self.mops.append(('upd', a.index, str(a).split('\n')))
         l = self.ents[i].lines[0]
         self.ents[i].lines = [l[:6] + ['0.04']]
         self.log.append(('to_isotropic', a.name))
@@ -200,6 +211,7 @@ class History(object):
             return False
         n = self.rng.randint(1, 60)
         shx.plan.set('PLAN %d' % n)
+        self.mops.append(('upd', shx.plan.index, str(shx.plan).split('\n')))
         self.ents[i].lines = [['PLAN', str(n)]]
         self.log.append(('plan', n))
         return True
@@ -215,6 +227,7 @@ class History(object):
         n = self.rng.randint(0, 30)
         old = self.ents[i].lines[0]
         c.number = n
+        self.mops.append(('upd', c.index, str(c).split('\n')))
         rest = old[2:]
         while rest and float(rest[-1]) == 0:       # trailing zeros are the defaults nrf[0] nextra[0]
             rest = rest[:-1]
@@ -240,6 +253,7 @@ class History(object):
             old = [fnum(x) for x in self.ents[i].lines[0][1:]] + [0.1, 0, 0, 0, 0, 0.33333][len(self.ents[i].lines[0]) - 1:]
             vals = vals[:2] + old[2:6]
             self.log.append(('wght', vals[0], vals[1]))
+        self.mops.append(('upd', shx.wght.index, str(shx.wght).split('\n')))
         short = vals[2:] == [0.0, 0.0, 0.0, 0.33333]
         self.ents[i].lines = [['WGHT'] + [repr(v) for v in (vals[:2] if short else vals)]]
         return True
@@ -262,12 +276,14 @@ class History(object):
             if i is None:
                 return False
             self.acta_store = self.ents[i].lines
+            self.mops.append(('del', shx.acta.index))
             self.refine.remove_acta_card(shx.acta)
             del self.ents[i]
             self.log.append(('remove_acta',))
         else:
             ui = find_entry(self.ents, shx.unit)
             self.refine.restore_acta_card()
+            self.mops.append(('ins', shx.acta.index, str(shx.acta).split('\n'), False))
             self.ents.insert(ui + 1, Entry(shx.acta, self.acta_store, False, 'ACTA'))
             self.acta_store = None
             self.log.append(('restore_acta',))
